@@ -11,7 +11,7 @@
    validators sign.  [C01_decide_backed] is the second sentence of the property, proved for the
    state-machine model directly. *)
 From Coq Require Import List ZArith NArith Bool Lia.
-From TM Require Import C02.Model C02.ProofsVoteSet C02.ProofsHVS C02.ProofsLock C01.Weights C01.Abstract C01.Exec.
+From TM Require Import C02.Model C02.ProofsVoteSet C02.ProofsHVS C02.ProofsLock C01.Weights C01.Abstract C01.Compose C01.Exec.
 Import ListNotations.
 Open Scope Z_scope.
 
@@ -45,6 +45,40 @@ Theorem C01_agreement :
     Decision ps correct evs h r b D -> Decision ps correct evs h r' b' D' -> fst b = fst b'.
 Proof. exact agreement. Qed.
 Print Assumptions C01_agreement.
+
+(* Agreement for the network of state machines (the composition, mechanised in Compose.v).
+   [steps] is ANY global schedule: a list of (validator, input) pairs; each pair is one call of
+   the code's handler (C02/Model.v [handle]) by that validator's state machine on its current
+   state.  Inputs are arbitrary — proposals, parts, votes of any signer (valid, invalid,
+   equivocating), timeouts, peer claims — in any order, with any delays, repetitions and losses.
+   The only hypotheses: the faulty validators hold less than a third of the power, and
+   unforgeability — a vote that verifies under a correct validator's key and is delivered at
+   step g was signed by that validator's state machine in an earlier step of the schedule.
+   Then two decisions for one height, by any two state machines, are for the same block hash.
+   (All validators start at the same height with the same validator set; the set does not
+   change during the run — validator-set changes are C08's subject.) *)
+Theorem C01_network_agreement :
+  forall (vals : valset), powers_nonneg vals ->
+  forall (E : nat -> env), (forall j, e_vals (E j) = vals) ->
+  forall (height0 : Z) (lc0 : nat -> option voteset) (steps : sched)
+         (correct : nat -> bool) (faulty : list nat),
+    NoDup faulty -> (forall i, In i faulty -> (i < length (powers vals))%nat) ->
+    (forall i, (i < length (powers vals))%nat -> correct i = false -> In i faulty) ->
+    3 * pw (powers vals) faulty < total (powers vals) ->
+    (forall g k v peer,
+       nth_error steps g = Some (k, IVote v peer) -> v_ok v = true -> 0 <= v_idx v ->
+       correct (Z.to_nat (v_idx v)) = true ->
+       exists e, In e (gevents E height0 lc0 [] (firstn g steps)) /\ se_who e = Z.to_nat (v_idx v) /\
+                 se_ty e = v_type v /\ se_h e = v_height v /\ se_r e = v_round v /\ se_x e = v_bid v) ->
+  forall g1 k1 i1 g2 k2 i2 h r1 r2 bh1 bh2,
+    nth_error steps g1 = Some (k1, i1) -> nth_error steps g2 = Some (k2, i2) ->
+    In (ODecide h r1 bh1)
+       (snd (handle (E k1) (fst (run (E k1) (init E height0 lc0 k1) (proj k1 (firstn g1 steps)))) i1)) ->
+    In (ODecide h r2 bh2)
+       (snd (handle (E k2) (fst (run (E k2) (init E height0 lc0 k2) (proj k2 (firstn g2 steps)))) i2)) ->
+    bh1 = bh2.
+Proof. exact network_agreement. Qed.
+Print Assumptions C01_network_agreement.
 
 (* Every block a node decides passed validation, its complete part set was delivered, and it is
    backed by precommits for exactly that block id, in one round, from distinct validators with
@@ -91,4 +125,39 @@ Proof.
   split; [intros i Hi; cbn in *; intuition lia|].
   split; [|vm_compute; reflexivity].
   intros i Hi. cbn in Hi. cbn. intuition (subst; auto).
+Qed.
+
+(* non-vacuity of C01_network_agreement: validators 0,1,2 (of 4 equal ones; 3 is faulty and
+   silent) each run the state machine; every one receives the proposal and the block, then the
+   three prevotes, then the three precommits.  The schedule meets the unforgeability hypothesis
+   (decided by computation) and validators 0 and 2 both decide — block 7. *)
+Definition nx_vals : valset := [(1%N, 10); (2%N, 10); (3%N, 10); (4%N, 10)].
+Definition nx_env (j : nat) : env :=
+  {| e_vals := nx_vals; e_me := Some (Z.of_nat j); e_proposer := fun _ r => (r + 1) mod 4;
+     e_skip_timeout_commit := false; e_initial_height := 1 |}.
+Definition nx_vote ty i : input :=
+  IVote {| v_type := ty; v_height := 1; v_round := 0; v_bid := Some ex_b; v_idx := i;
+           v_addr := N.of_nat (Z.to_nat i + 1); v_sig := N.of_nat (Z.to_nat i + 100 * N.to_nat ty); v_ok := true |} 5%N.
+Definition nx_nodes : list nat := [0; 1; 2]%nat.
+Definition nx_steps : sched :=
+  map (fun k => (k, ITimeout {| ti_height := 1; ti_round := 0; ti_step := SNewHeight |})) nx_nodes
+  ++ flat_map (fun k => [(k, IProposal {| pr_height := 1; pr_round := 0; pr_polr := -1; pr_bid := ex_b;
+                                           pr_signer := 1; pr_sigvalid := true |});
+                         (k, IPart 1 (1%N, 9%N) 0%N (Some {| b_hash := 7%N; b_valid := true |}))]) nx_nodes
+  ++ flat_map (fun k => map (fun i => (k, nx_vote PREVOTE i)) [0; 1; 2]) nx_nodes
+  ++ flat_map (fun k => map (fun i => (k, nx_vote PRECOMMIT i)) [0; 1; 2]) nx_nodes.
+Definition nx_correct (j : nat) : bool := Nat.ltb j 3.
+
+Example C01_network_nonvacuous :
+  unforgeable_b nx_env 1 (fun _ => None) nx_correct nx_steps = true /\
+  3 * pw (powers nx_vals) [3%nat] < total (powers nx_vals) /\
+  (exists i, nth_error nx_steps 20 = Some (0%nat, i) /\
+     In (ODecide 1 0 7%N)
+        (snd (handle (nx_env 0) (fst (run (nx_env 0) (init nx_env 1 (fun _ => None) 0) (proj 0 (firstn 20 nx_steps)))) i))) /\
+  (exists i, nth_error nx_steps 26 = Some (2%nat, i) /\
+     In (ODecide 1 0 7%N)
+        (snd (handle (nx_env 2) (fst (run (nx_env 2) (init nx_env 1 (fun _ => None) 2) (proj 2 (firstn 26 nx_steps)))) i))).
+Proof.
+  split; [vm_compute; reflexivity|]. split; [vm_compute; reflexivity|].
+  split; eexists; (split; [vm_compute; reflexivity|]); vm_compute; tauto.
 Qed.
